@@ -83,7 +83,7 @@ impl Check for C10 {
     }
 
     fn cases(&self, tier: Tier) -> u64 {
-        tier.pick(20_000, 600_000)
+        tier.pick(40_000, 600_000)
     }
 
     fn max_shrink_iters(&self) -> u32 {
